@@ -460,7 +460,7 @@ class Runner:
                'mode': (q.mode + (str(q.prime) if q.mode != 'real' else '')) if q.engine == 'smt' else q.solver}
         try:
             gb = self.link(q, False)
-            r = self.run_smt(q, gb) if q.engine == 'smt' else self.run_sat(q, gb)
+            r = self.run_smt(q, gb, split_on_fail=not getattr(q, 'nosplit', False)) if q.engine == 'smt' else self.run_sat(q, gb)
             rec.update({k: v for k, v in r.items() if k != 'traces'})
             rec['_traces'] = r.get('traces')
             rec['_gb'] = gb
